@@ -26,6 +26,7 @@ const (
 
 // StartRec is one recorded process start.
 type StartRec struct {
+	Signals []string // signals other than SIGKILL sent to the process
 	Path   string
 	Args   []string
 	Env    []string
@@ -169,6 +170,19 @@ func (p *Process) Kill() error {
 		p.cmd.rec.Killed = true
 		p.cmd.rec.KillAt = vtime.Elapsed()
 	}
+	return nil
+}
+
+// Signal: only SIGKILL ends the modelled process; a hanging hook is the adversarial one that
+// ignores (or handles) every other signal.
+func (p *Process) Signal(sig os.Signal) error {
+	if p.cmd.rec.Waited {
+		return errors.New("os: process already finished")
+	}
+	if sig == os.Kill || sig == syscall.SIGKILL {
+		return p.Kill()
+	}
+	p.cmd.rec.Signals = append(p.cmd.rec.Signals, sig.String())
 	return nil
 }
 
